@@ -56,22 +56,29 @@ def Graph.labelSets (g : Graph) (depth : Option (Array Nat)) : Array (List Dom) 
     if !changed then return ls
   return ls
 
-/-- `Violation g ps (g.node k)` evaluated on label sets -/
-def Node.violatesB (n : Node) (ps : Clk → Clk) (ls : Array (List Dom)) : Bool :=
+def isClock : Dom → Bool
+  | .clock _ => true
+  | _ => false
+
+/-- `Violation g ps (g.node k)` evaluated on label sets. With `clockOnly` only violations between two *clocks* count
+    (a genuine crossing between two clock domains); without it also the hazards of unbound clock slots (an `unknown`
+    label is compatible with nothing, not even with itself at another input). -/
+def Node.violatesB (n : Node) (ps : Clk → Clk) (ls : Array (List Dom)) (clockOnly : Bool := false) : Bool :=
+  let bad (l m : Dom) : Bool := !compatB ps l m && (!clockOnly || (isClock l && isClock m))
   let arr : List (List Dom) := n.ins.map fun | none => [] | some d => ls.getD d []
   let base : Bool := match n.kind with | .plain _ => true | .memPort _ => true | _ => false
   let sink : Bool := match n.ownClock with
-    | some b => arr.any fun s => s.any fun l => !compatB ps l (.clock b)
+    | some b => arr.any fun s => s.any fun l => bad l (.clock b)
     | none => false
   let rec mix : List (List Dom) → Bool
     | [] => false
-    | s :: rest => (s.any fun l => rest.any fun t => t.any fun m => !compatB ps l m) || mix rest
+    | s :: rest => (s.any fun l => rest.any fun t => t.any fun m => bad l m) || mix rest
   let marker : Bool := match n.kind with
-    | .cdc ic _ => (arr.headD []).any fun l => !compatB ps l (.clock ic)
+    | .cdc ic _ => (arr.headD []).any fun l => bad l (.clock ic)
     | _ => false
   sink || (base && mix arr) || marker
 
-def Graph.crossingB (g : Graph) (ps : Clk → Clk) (ls : Array (List Dom)) : Bool :=
-  (List.range g.nodes.size).any fun k => (g.node k).violatesB ps ls
+def Graph.crossingB (g : Graph) (ps : Clk → Clk) (ls : Array (List Dom)) (clockOnly : Bool := false) : Bool :=
+  (List.range g.nodes.size).any fun k => (g.node k).violatesB ps ls clockOnly
 
 end Gatery.C12
